@@ -4,3 +4,4 @@ import ChiModel.ErrorModels
 import ChiModel.LogLik
 import ChiModel.PopModels
 import ChiModel.Hier
+import ChiModel.Reduced
